@@ -166,15 +166,19 @@ def value_arg_roots(f, o, limit=200):
     return out
 
 
-def reach_under(f, known, targets):
+def reach_under(f, known, targets, start=0, avoid=(), cut=(), carry=(), on_edge=None):
     """Path-sensitive reachability with partial evaluation: `known(inst)` returns an int for instructions whose value is assumed
     (or None); integer/boolean arithmetic, casts, llvm.expect and phis (resolved along the path) are folded; a conditional branch whose
-    condition folds takes only that side.  Returns the subset of `targets` (block ids) that some path from the entry reaches."""
+    condition folds takes only that side.  Returns the subset of `targets` (block ids) that some path from `start` reaches.
+    `avoid`: blocks no path may enter; `cut`: edges (from, to) no path may take; `carry`: ids of phis whose incoming operand is
+    carried along the path as a token ('val', operand) (a carried phi flowing into a carried phi keeps its token);
+    `on_edge(from, to, tokens)` is called for every edge a path takes, cut edges included."""
     def sgn(v, bits):
         v &= (1 << bits) - 1
         return v - (1 << bits) if bits > 1 and v >> (bits - 1) else v
     hit = set()
-    seen = set(); work = [(0, None, ())]
+    seen = set(); work = [(start, None, ())]
+    avoid = set(avoid); cut = set(cut); carry = set(carry)
     n = 0
     while work and n < 20000:
         n += 1
@@ -195,7 +199,7 @@ def reach_under(f, known, targets):
                 return None
             x = f.by_id[o[1]]
             if x.i in pv:
-                return pv[x.i]
+                return pv[x.i] if isinstance(pv[x.i], int) else None
             k = known(x)
             if k is not None:
                 return k
@@ -240,7 +244,10 @@ def reach_under(f, known, targets):
             if x.op == 'phi':
                 for a, bb in zip(x.a, x.d['bb']):
                     if bb == prev:
-                        pv[x.i] = ev(a)
+                        if x.i in carry:
+                            pv[x.i] = pv[a[1]] if a[0] == 'v' and a[1] in carry and a[1] in pv else ('val', tuple(a))
+                        else:
+                            pv[x.i] = ev(a)
         if b in targets:
             hit.add(b)
         t = blk.term
@@ -256,7 +263,11 @@ def reach_under(f, known, targets):
                 hit_ = [bb for cv, bb in t.d.get('cases', []) if int(cv) == v]
                 nxt = hit_ or [t.d['default']]
         # only boolean-valued phis are carried along a path (flag words built from constants would multiply the states without deciding anything)
-        keep = tuple(sorted((k, v) for k, v in pv.items() if v in (0, 1)))
+        keep = tuple(sorted(((k, v) for k, v in pv.items() if k in carry or v in (0, 1)), key=repr))
         for n_ in nxt:
+            if on_edge is not None:
+                on_edge(b, n_, pv)
+            if n_ in avoid or (b, n_) in cut:
+                continue
             work.append((n_, b, keep))
     return hit
